@@ -14,10 +14,15 @@ import (
 	"crypto/elliptic"
 	"crypto/rand"
 	"crypto/rsa"
+	"crypto/tls"
 	"crypto/x509"
 	"encoding/json"
 	"errors"
 	"fmt"
+	"github.com/theparanoids/ysshra/crypki"
+	"google.golang.org/grpc/codes"
+	"google.golang.org/grpc/grpclog"
+	"google.golang.org/grpc/status"
 	"io"
 	stdlog "log"
 	mrand "math/rand"
@@ -28,6 +33,7 @@ import (
 	"strings"
 	"sync"
 	"time"
+	"verifharness/casim"
 
 	"github.com/rs/zerolog"
 	"github.com/theparanoids/crypki/proto"
@@ -586,9 +592,94 @@ type SOutSpec struct {
 	Kind     int
 	Certs    []int
 	Comments []string
+	// ViaCrypki: the answer travels the way it does in production - a CA server (TLS, gRPC) sends the certificates as
+	// authorized_keys text and the RA's real crypki.Signer reads it.  NoFinalNewline: the text does not end in a
+	// newline.  EmptyKey: the CA answers OK with an empty key field (it delivered nothing: a CA failure).
+	ViaCrypki      bool
+	NoFinalNewline bool
+	EmptyKey       bool
 	// CancelCtx: the run's context is cancelled while this call is being answered (the request timeout expires in
 	// the middle of a run; the answer itself is unaffected)
 	CancelCtx bool
+}
+
+// realCA is a CA server (casim farm, one address) with the RA's real crypki.Signer in front of it, built once per process.
+type realCA struct {
+	farm   *casim.Farm
+	signer *crypki.Signer
+	mu     sync.Mutex
+	text   string
+	fail   bool
+	dir    string
+}
+
+var (
+	realCAOnce sync.Once
+	theRealCA  *realCA
+	realCAErr  error
+)
+
+func getRealCA() (*realCA, error) {
+	realCAOnce.Do(func() {
+		dir, err := os.MkdirTemp("", "verif-gensim-ca-")
+		if err != nil {
+			realCAErr = err
+			return
+		}
+		ca, err := casim.NewCA("gensim CA", 1)
+		if err != nil {
+			realCAErr = err
+			return
+		}
+		clientCA, err := casim.NewCA("gensim client CA", 2)
+		if err != nil {
+			realCAErr = err
+			return
+		}
+		client, err := clientCA.Issue(casim.Leaf{CN: "ra", Client: true})
+		if err != nil {
+			realCAErr = err
+			return
+		}
+		keyPEM, err := casim.KeyPEM(client)
+		if err != nil {
+			realCAErr = err
+			return
+		}
+		certFile, _ := casim.WriteFile(dir, "client.crt", casim.CertPEM(client))
+		keyFile, _ := casim.WriteFile(dir, "client.key", keyPEM)
+		caFile, _ := casim.WriteFile(dir, "ca.crt", ca.PEM)
+		ip := "127.0.0.1"
+		farm, err := casim.NewFarm([]string{ip})
+		if err != nil {
+			realCAErr = err
+			return
+		}
+		leaf, err := ca.Issue(casim.Leaf{CN: "ca-1", IPs: []string{ip}})
+		if err != nil {
+			realCAErr = err
+			return
+		}
+		farm.SetMode(ip, casim.Mode{TLS: casim.ServerTLS(leaf, tls.VersionTLS12, tls.VersionTLS13, tls.RequireAndVerifyClientCert, casim.Pool(clientCA))})
+		grpclog.SetLoggerV2(grpclog.NewLoggerV2(io.Discard, io.Discard, io.Discard))
+		r := &realCA{farm: farm, dir: dir}
+		farm.SetHandler(func(string, *proto.SSHCertificateSigningRequest, int) casim.Answer {
+			r.mu.Lock()
+			defer r.mu.Unlock()
+			if r.fail {
+				return casim.Answer{Err: status.Error(codes.Internal, "harness CA refuses")}
+			}
+			return casim.Answer{Key: r.text}
+		})
+		r.signer, err = crypki.NewSigner(crypki.SignerConfig{TLSClientKeyFile: keyFile, TLSClientCertFile: certFile, TLSCACertFiles: []string{caFile},
+			CrypkiEndpoints: []string{ip}, CrypkiPort: uint(farm.Port), Retries: 1, PerTryTimeout: 5 * time.Second})
+		if err != nil {
+			realCAErr = err
+			return
+		}
+		theRealCA = r
+	})
+	return theRealCA, realCAErr
 }
 
 // MockSigner is the scripted CA.
@@ -699,9 +790,60 @@ func (m *MockSigner) Sign(ctx context.Context, req *proto.SSHCertificateSigningR
 		certs = append(certs, c)
 		gs = append(gs, m.gScert(c))
 	}
+	if spec.ViaCrypki {
+		return m.viaCrypki(ctx, req, spec, certs, gs)
+	}
 	m.Outcomes = append(m.Outcomes, core.GApp("SOk", core.GList(gs), core.GStrList(spec.Comments)))
 	m.Humans = append(m.Humans, fmt.Sprintf("ok %v comments=%q", gs, spec.Comments))
 	return certs, spec.Comments, nil
+}
+
+// viaCrypki sends the answer through a real CA server and the RA's real crypki.Signer.
+func (m *MockSigner) viaCrypki(ctx context.Context, req *proto.SSHCertificateSigningRequest, spec SOutSpec, certs []ssh.PublicKey, gs []string) ([]ssh.PublicKey, []string, error) {
+	rca, err := getRealCA()
+	if err != nil {
+		m.Outcomes = append(m.Outcomes, "SErr")
+		m.Humans = append(m.Humans, "real CA unavailable: "+err.Error())
+		return nil, nil, err
+	}
+	var lines, comments []string
+	for i, c := range certs {
+		if c == nil {
+			continue
+		}
+		cm := "k"
+		if i < len(spec.Comments) && spec.Comments[i] != "" && !strings.ContainsAny(spec.Comments[i], "\r\n") {
+			cm = spec.Comments[i]
+		}
+		comments = append(comments, cm)
+		lines = append(lines, strings.TrimSuffix(string(ssh.MarshalAuthorizedKey(c)), "\n")+" "+cm)
+	}
+	text := strings.Join(lines, "\n")
+	if !spec.NoFinalNewline && text != "" {
+		text += "\n"
+	}
+	if spec.EmptyKey {
+		text, lines = "", nil
+	}
+	rca.mu.Lock()
+	rca.text, rca.fail = text, false
+	rca.mu.Unlock()
+	got, gotComments, serr := rca.signer.Sign(ctx, req)
+	if len(lines) == 0 {
+		// the CA delivered nothing: for the run this is a failing CA
+		m.Outcomes = append(m.Outcomes, "SErr")
+		m.Humans = append(m.Humans, fmt.Sprintf("CA server answered OK with %d key lines (real crypki.Signer returned %d keys, err=%v)", len(lines), len(got), serr))
+		return got, gotComments, serr
+	}
+	var sent []string
+	for _, c := range certs {
+		if c != nil {
+			sent = append(sent, m.gScert(c))
+		}
+	}
+	m.Outcomes = append(m.Outcomes, core.GApp("SOk", core.GList(sent), core.GStrList(comments)))
+	m.Humans = append(m.Humans, fmt.Sprintf("CA server sent %v comments=%q finalNewline=%v; real crypki.Signer returned %d keys, err=%v", sent, comments, !spec.NoFinalNewline, len(got), serr))
+	return got, gotComments, serr
 }
 
 // GSignerScript renders the outcome list for the case: what was actually
